@@ -130,7 +130,7 @@ def gen_loader_case(rng, tier, cls):
         for u in case["utts"]:
             u["T"] = max(1, u["T"])
     if cls == "workers2":
-        case["epochs"] = 2
+        case["epochs"] = 1  # every epoch starts a worker pool: keep the multi-process cases few and short
     return case
 
 
